@@ -25,7 +25,7 @@ func init() {
 			"block constants are compile-time: shapes are built to hit them, they are not shrunk",
 			"the .frac-cache form waits for the maintenance loop to write the file (logical event, bounded polling)",
 		},
-		Batches: tiered(24, 160),
+		Batches: tiered(72, 1440),
 		Run:     runC03,
 		Par:     8,
 		Timeout: timeoutFor(10*time.Minute, 45*time.Minute),
